@@ -47,10 +47,23 @@ def cfg_key(state):
     return d
 
 
+SAMPLE_QUICK = {"RiemannGen": 96}      # expensive families: a seeded sample of the enumerated campaign in the quick tier
+
+
 def scan_collect(prop, prefixes, camp_driver, tier, verdict, module="Campaign", require_patterns=None, groups=None):
     """Run the scan campaigns, validate the traces, feed failed clauses of this property into
     `verdict`; returns the statistics for the evidence file."""
     states, cres = core.enumerate_campaign(sorted(camp_driver), tier, prop, module=module)
+    if tier == "quick":
+        import random
+        rng = random.Random(core.seed() + 23)
+        keep = []
+        for fam in sorted({s["fam"] for s in states}):
+            lst = [s for s in states if s["fam"] == fam]
+            if fam in SAMPLE_QUICK and len(lst) > SAMPLE_QUICK[fam]:
+                lst = rng.sample(lst, SAMPLE_QUICK[fam])
+            keep += lst
+        states = keep
 
     def drv(f):
         d = camp_driver[f]
